@@ -4,7 +4,7 @@
 //!   fn <s>                         -> quote_if_needed(s, Single|Double|Backslash) force_quote(s, Single|Double|Backslash)
 //!   ansi <s>                       -> expand_backslash_escapes(s, AnsiCQuotes) (lossy UTF-8) | ERR
 //!   rd a|s <text>                  -> what brush's `eval` makes of `set -- <text>` / `zzr=<text>`
-//!   e2e <form> <payload…>          -> `<esc text> ; <reread> [; <reread>]`  (text printed by a shell holding the
+//!   e2e <form> <payload…>          -> `<esc text> %; <reread> [%; <reread>]`  (text printed by a shell holding the
 //!                                     payload, then re-read by `eval` in a fresh shell)
 //! Re-read results:  `W <n> <w1> …` (words), `V <attrs|-> <s|a|A|u> <k v>…` (variable), `S <body>`, `NONE`, `ERR`.
 use std::collections::BTreeMap;
@@ -163,7 +163,7 @@ async fn e2e(f: &[String]) -> String {
                 }),
             };
             let Some(t) = t else { return "NOTEXT".to_string() };
-            format!("{} ; {} ; {}", esc(&t), read_args(&t).await, read_assign(&t).await)
+            format!("{} %; {} %; {}", esc(&t), read_args(&t).await, read_assign(&t).await)
         }
         "xs" => {
             set_str(&mut a, "zzv", &f[1]);
@@ -172,7 +172,7 @@ async fn e2e(f: &[String]) -> String {
                 Some(l["+ ".len()..].to_string())
             });
             let Some(t) = t else { return "NOTEXT".to_string() };
-            format!("{} ; {}", esc(&t), read_stmt_var(&t, "zzt").await)
+            format!("{} %; {}", esc(&t), read_stmt_var(&t, "zzt").await)
         }
         "A" | "dp" | "set" | "ex" => {
             // scalar with attributes
@@ -194,7 +194,7 @@ async fn e2e(f: &[String]) -> String {
                 _ => capture(&mut a, "export -p > \"$zzO\"").await.and_then(|s| between(&s, "declare -x zzv=", "declare -x zzw=")),
             };
             let Some(t) = t else { return "NOTEXT".to_string() };
-            format!("{} ; {}", esc(&t), read_stmt_var(&t, "zzv").await)
+            format!("{} %; {}", esc(&t), read_stmt_var(&t, "zzv").await)
         }
         "dpa" | "Aa" | "seta" | "dpA" | "AA" | "setA" | "Qa" => {
             let attrs = if f[1] == "-" { "" } else { f[1].as_str() };
@@ -223,9 +223,9 @@ async fn e2e(f: &[String]) -> String {
             };
             let Some(t) = t else { return "NOTEXT".to_string() };
             if form == "Qa" {
-                format!("{} ; {}", esc(&t), read_args(&t).await)
+                format!("{} %; {}", esc(&t), read_args(&t).await)
             } else {
-                format!("{} ; {}", esc(&t), read_stmt_var(&t, "zza").await)
+                format!("{} %; {}", esc(&t), read_stmt_var(&t, "zza").await)
             }
         }
         "al" | "alp" => {
@@ -237,7 +237,7 @@ async fn e2e(f: &[String]) -> String {
                 Some(b) => format!("S {}", esc(b)),
                 None => "NONE".to_string(),
             };
-            format!("{} ; {}", esc(&t), r)
+            format!("{} %; {}", esc(&t), r)
         }
         "tr" => {
             a.traps_mut().register_handler(usr1(), f[1].clone(), brush_core::SourceInfo::from("vh"));
@@ -248,7 +248,7 @@ async fn e2e(f: &[String]) -> String {
                 Some(h) => format!("S {}", esc(&h.command)),
                 None => "NONE".to_string(),
             };
-            format!("{} ; {}", esc(&t), r)
+            format!("{} %; {}", esc(&t), r)
         }
         _ => "bad-form".to_string(),
     }
